@@ -102,7 +102,7 @@ func c02Word(ps *riscv.Parser, c c02Case) (*eng.Fail, bool) {
 
 func init() {
 	checks["C02"] = eng.Check{
-		Rule: "quick: the structured quotient of the word space — all 2^22 combinations of bits[31:20] x funct3 x opcode[6:0] with rd=rs1=0, and for rv32ima/rv64ima additionally each of them with every single rd/rs1 bit set and with rd=rs1=31 — in all 8 configurations; thorough: ALL 2^32 words x 8 configurations. Acceptance and mnemonic compared with a decoder table written from the specification listings. Inputs of length 0..3 and trailing bytes {00, ffffffff, the word again} on every accepted quotient word of two configurations. Non-trivial = accepted word.",
+		Rule:        "quick: the structured quotient of the word space — all 2^22 combinations of bits[31:20] x funct3 x opcode[6:0] with rd=rs1=0, and for rv32ima/rv64ima additionally each of them with every single rd/rs1 bit set and with rd=rs1=31 — in all 8 configurations; thorough: ALL 2^32 words x 8 configurations. Acceptance and mnemonic compared with a decoder table written from the specification listings. Inputs of length 0..3 and trailing bytes {00, ffffffff, the word again} on every accepted quotient word of two configurations. Non-trivial = accepted word.",
 		Assumptions: []string{"reference: harness/rvref table (DESIGN.md appendix A): base I + Zicsr + M + A, fence with fm=rd=rs1=0, fence.i/ecall/ebreak exact words, reserved shamt bits zero, lr with rs2=0, aq/rl free"},
 		Run: func(r *eng.Run) {
 			cfgs := rvx.AllCfgs()
